@@ -37,6 +37,9 @@ func c16Impl(in []int64) []int64 {
 			return []int64{BADCASE}
 		}
 	}
+	if (kind == 0 || kind == 1) && len(ops) >= 3 && ops[0] == 4 && ops[2] == 1 {
+		return c16Live(kind, ops) // marked case: the operations are issued from inside the running walks
+	}
 	switch kind {
 	case 0: // setz.Bits
 		var s [2]setz.Bits
@@ -212,6 +215,192 @@ func c16Impl(in []int64) []int64 {
 				}
 				out = append(out, PutList(l)...)
 			}
+		}
+	}
+	return out
+}
+
+// ---------------------------------------------------------------- live walks
+// A case whose first operation is Cap[.](1) (the argument of Cap is ignored by model and specification) is run with
+// callbacks that are not passive.  Range(k) / All(k) with k > 0 does not end at its k-th value: the operations that follow
+// in the case are issued from INSIDE that k-th call of the callback (element operations, Grow, the bulk operations, Clone,
+// on either set: any number of them), and the next Range / All operation on the same set is answered by letting the same
+// walk go on.  Range, All read the live set (bits and word count are read again after every call of the callback), so
+// for a walk standing at the value v, after the set has become S,
+//
+//	Range(k') on S  =  first k' of ( members of S that are <= v, ascending  ++  what the walk still reports )
+//
+// i.e. the walk must go on with exactly the members of the set as it is NOW that are greater than v: nothing removed in the
+// meantime, everything added in the meantime (below, in and beyond the word the walk stands in, before and after the set
+// was reallocated by a growth).  The members <= v are read with Contains.  k' = 0 lets the walk run to its end; when a walk
+// ends by itself the rest of the case runs outside it; at the end of the case the callback returns false.  The case stays a
+// plain operation sequence for model and specification, which know nothing of the nesting.  A call of the callback after
+// it returned false is written into the output (tokens -7, value), which no specification output contains.
+type c16API struct {
+	add, remove, contains func(t int, v uint) bool
+	length, capacity      func(t int) int
+	grow                  func(t int, v uint)
+	iter                  func(t int) []int64
+	walk                  func(t int, all bool, fn func(uint) bool)
+	bulk                  func(c int64, t int, self bool)
+	clone                 func(t int)
+}
+
+func c16Drain(it setz.BitmapIter) []int64 {
+	var l []int64
+	for n := 0; it.Next() && n < 1<<22; n++ {
+		l = append(l, int64(it.Value()))
+	}
+	return l
+}
+
+func c16MakeAPI(kind int64) *c16API {
+	if kind == 0 {
+		s := new([2]setz.Bits)
+		return &c16API{
+			add:      func(t int, v uint) bool { return s[t].Add(v) },
+			remove:   func(t int, v uint) bool { return s[t].Remove(v) },
+			contains: func(t int, v uint) bool { return s[t].Contains(v) },
+			length:   func(t int) int { return s[t].Len() },
+			capacity: func(t int) int { return s[t].Cap() },
+			grow:     func(t int, v uint) { s[t].Grow(v) },
+			iter:     func(t int) []int64 { return c16Drain(s[t].Iter()) },
+			walk: func(t int, all bool, fn func(uint) bool) {
+				if all {
+					s[t].All()(fn)
+				} else {
+					s[t].Range(fn)
+				}
+			},
+			bulk: func(c int64, t int, self bool) {
+				other := s[1-t]
+				if self && s[t].Cap() == s[1-t].Cap() && s[t].Len() == s[1-t].Len() && c16Same(s[t].Bitmap, s[1-t].Bitmap) {
+					other = s[t]
+				}
+				switch c {
+				case 9:
+					s[t].Diff(other)
+				case 10:
+					s[t].Intersect(other)
+				default:
+					s[t].Merge(other)
+				}
+			},
+			clone: func(t int) {
+				cl := setz.Bits{Bitmap: s[t].Bitmap.Clone()}
+				cl.Merge(setz.Bits{})
+				s[1-t] = cl
+			},
+		}
+	}
+	s := new([2]setz.Bitmap)
+	return &c16API{
+		add:      func(t int, v uint) bool { return s[t].Add(v) },
+		remove:   func(t int, v uint) bool { return s[t].Remove(v) },
+		contains: func(t int, v uint) bool { return s[t].Contains(v) },
+		length:   func(t int) int { return s[t].Len() },
+		capacity: func(t int) int { return s[t].Cap() },
+		grow:     func(t int, v uint) { s[t].Grow(v) },
+		iter:     func(t int) []int64 { return c16Drain(s[t].Iter()) },
+		walk:     func(t int, all bool, fn func(uint) bool) { s[t].Range(fn) },
+		bulk: func(c int64, t int, self bool) {
+			other := s[1-t]
+			if self && s[t].Cap() == s[1-t].Cap() && c16Same(s[t], s[1-t]) {
+				other = s[t]
+			}
+			switch c {
+			case 9:
+				s[t].Diff(other)
+			case 10:
+				s[t].Intersect(other)
+			default:
+				s[t].Merge(other)
+			}
+		},
+		clone: func(t int) { s[1-t] = s[t].Clone() },
+	}
+}
+
+func c16Live(kind int64, ops []int64) []int64 {
+	api := c16MakeAPI(kind)
+	var out []int64
+	plain := func(c int64, t int, a int64) {
+		switch c {
+		case 0:
+			out = append(out, B(api.add(t, uint(a))))
+		case 1:
+			out = append(out, B(api.remove(t, uint(a))))
+		case 2:
+			out = append(out, B(api.contains(t, uint(a))))
+		case 3:
+			out = append(out, int64(api.length(t)))
+		case 4:
+			out = append(out, int64(api.capacity(t)))
+		case 5:
+			api.grow(t, uint(a))
+		case 6:
+			out = append(out, PutList(api.iter(t))...)
+		case 9, 10, 11:
+			api.bulk(c, t, a == 1)
+		case 12:
+			api.clone(t)
+		}
+	}
+	i := 0
+	for i+2 < len(ops) {
+		c, t, a := ops[i], int(ops[i+1]&1), ops[i+2]
+		i += 3
+		if c != 7 && c != 8 {
+			plain(c, t, a)
+			continue
+		}
+		var seg []int64 // the answer to the Range / All operation that is being answered
+		need, pending, stopped, calls := a, true, false, 0
+		api.walk(t, c == 8, func(v uint) bool {
+			if stopped {
+				out = append(out, -7, int64(v))
+				return false
+			}
+			seg = append(seg, int64(v))
+			if calls++; need <= 0 || int64(len(seg)) < need {
+				if calls >= 1<<22 {
+					stopped = true
+				}
+				return !stopped
+			}
+			out = append(out, PutList(seg)...)
+			pending = false
+			for i+2 < len(ops) { // the walk stands at v: the following operations are issued from here
+				c2, t2, a2 := ops[i], int(ops[i+1]&1), ops[i+2]
+				i += 3
+				if (c2 != 7 && c2 != 8) || t2 != t {
+					if c2 == 7 || c2 == 8 { // a walk of the other set, started from inside this one: passive
+						var l []int64
+						api.walk(t2, c2 == 8, func(w uint) bool { l = append(l, int64(w)); return !(a2 > 0 && int64(len(l)) >= a2) })
+						out = append(out, PutList(l)...)
+					} else {
+						plain(c2, t2, a2)
+					}
+					continue
+				}
+				var pre []int64
+				for u := uint(0); u <= v; u++ {
+					if api.contains(t, u) {
+						pre = append(pre, int64(u))
+					}
+				}
+				if a2 > 0 && int64(len(pre)) >= a2 {
+					out = append(out, PutList(pre[:a2])...)
+					continue
+				}
+				seg, need, pending = pre, a2, true
+				return true
+			}
+			stopped = true
+			return false
+		})
+		if pending {
+			out = append(out, PutList(seg)...)
 		}
 	}
 	return out
@@ -412,6 +601,146 @@ func c16Gen(c *Ctx) {
 		t.C.Count("op", c16Names[code])
 		t.Try(fmt.Sprintf("dense-kind%d", kind), in, true)
 	})
+	// live walks (see c16Live): the operations after Range(k) / All(k), k > 0, are issued from inside the k-th call of the
+	// callback, the next Range / All on that set continues the same walk.
+	// (a) small scope, complete: four 3-member sets x the walk standing at the 1st / 2nd member x every sequence of <= 2
+	// (thorough: 3) edits out of 19 (Adds below / in / beyond the current word and beyond the capacity, Removes of visited
+	// and not yet visited members, Grow, Merge of a longer set), then the walk runs to its end.
+	{
+		bases := [][3]int64{{1, 2, 3}, {1, 3, 64}, {63, 64, 70}, {5, 64, 130}}
+		var ed [][3]int64
+		for _, v := range []int64{0, 2, 4, 62, 63, 65, 100, 127, 1000, 5000} {
+			ed = append(ed, [3]int64{0, 0, v})
+		}
+		for _, v := range []int64{1, 2, 3, 63, 64, 70} {
+			ed = append(ed, [3]int64{1, 0, v})
+		}
+		ed = append(ed, [3]int64{5, 0, 1000}, [3]int64{11, 0, 0}, [3]int64{10, 0, 0})
+		L := c.N(2, 3)
+		per := 0
+		for l, m := 0, 1; l <= L; l, m = l+1, m*len(ed) {
+			per += m
+		}
+		c.Each(2*len(bases)*2*2*per, func(i int, t *T) {
+			kind := int64(i % 2)
+			i /= 2
+			b := bases[i%len(bases)]
+			i /= len(bases)
+			k := int64(1 + i%2)
+			i /= 2
+			walk := int64(7 + i%2) // Range / All (setz.Bitmap: Range both times)
+			i /= 2
+			l := 0
+			for m := 1; i >= m; m *= len(ed) {
+				i -= m
+				l++
+			}
+			in := []int64{kind, 4, 0, 1, 0, 1, 2, 0, 1, 200, 0, 0, b[0], 0, 0, b[1], 0, 0, b[2], walk, 0, k}
+			for j := 0; j < l; j++ {
+				e := ed[i%len(ed)]
+				i /= len(ed)
+				in = append(in, e[0], e[1], e[2])
+			}
+			in = append(in, 15-walk, 0, 0, 3, 0, 0, 6, 0, 0, 4, 0, 0)
+			t.Try(fmt.Sprintf("live-walk-small-kind%d", kind), in, l >= 1)
+		})
+	}
+	// (b) random: 2-7 members in one word (sometimes a second word, sometimes room grown in advance), a walk stopped at
+	// the 1st-3rd member, groups of 1-4 operations from inside the callback (a growth beyond the capacity - Add, Grow or
+	// Merge of a longer set - followed by changes of values of the word the walk stands in, most of them above the
+	// position), the walk continued for a few members or to its end, up to three such groups.
+	c.Each(c.N(8000, 150000), func(i int, t *T) {
+		r := t.R
+		kind := int64(i % 2)
+		tg := int64(r.Intn(2))
+		in := []int64{kind, 4, int64(r.Intn(2)), 1}
+		base := 64 * int64([]int{0, 0, 0, 1, 1, 2, 5, 17}[r.Intn(8)])
+		top := base + 64
+		if r.Intn(4) == 0 {
+			top = base + 64*int64(1+r.Intn(4))
+			in = append(in, 5, tg, top-1)
+		}
+		mem := map[int64]bool{}
+		for j, m := 0, 2+r.Intn(6); j < m; j++ {
+			v := base + int64(r.Intn(64))
+			if r.Intn(6) == 0 {
+				v += 64
+			}
+			if v >= top {
+				top = (v/64 + 1) * 64
+			}
+			mem[v] = true
+			in = append(in, 0, tg, v)
+		}
+		for j, m := 0, r.Intn(4); j < m; j++ { // the other set: longer, for Merge from inside the callback
+			in = append(in, 0, 1-tg, []int64{r.Int63n(64), base + r.Int63n(64), top + r.Int63n(700)}[r.Intn(3)])
+		}
+		walkOp := func() int64 { return int64(7 + r.Intn(2)) }
+		pos := int64(-1) // the value the walk stands at (as far as the generator can tell: used to aim, not to judge)
+		k := int64(1 + r.Intn(3))
+		for n := int64(0); n < k; {
+			if pos++; mem[pos] {
+				n++
+			} else if pos > top {
+				break
+			}
+		}
+		in = append(in, walkOp(), tg, k)
+		edits := 0
+		for g, groups := 0, 1+r.Intn(3); g < groups; g++ {
+			grown := false
+			for j, m := 0, 1+r.Intn(4); j < m; j++ {
+				x := r.Intn(10)
+				if j == 0 && r.Intn(2) == 0 {
+					x = 0
+				} else if grown && r.Intn(2) == 0 {
+					x = 3
+				}
+				word := pos / 64 * 64
+				switch {
+				case x < 2: // growth beyond the capacity
+					grown = true
+					far := top + 64*int64(r.Intn(3)) + int64(r.Intn(64))
+					if r.Intn(3) == 0 {
+						far = top + r.Int63n(4000)
+					}
+					top = (far/64 + 1) * 64
+					switch r.Intn(4) {
+					case 0:
+						in = append(in, 5, tg, far)
+					case 1:
+						in = append(in, 0, 1-tg, far, 11, tg, 0)
+					default:
+						in = append(in, 0, tg, far)
+					}
+				case x < 6: // a value of the current word, mostly above the position
+					v := word + int64(r.Intn(64))
+					if pos%64 < 63 && r.Intn(4) != 0 {
+						v = pos + 1 + r.Int63n(63-pos%64)
+					}
+					in = append(in, int64(r.Intn(2)), tg, v)
+				case x < 7: // the current value, or one near it in the neighbouring words
+					in = append(in, int64(r.Intn(2)), tg, []int64{pos, word + 64, word + 64 + r.Int63n(64), r.Int63n(top)}[r.Intn(4)])
+				case x < 8:
+					in = append(in, int64(2+r.Intn(3)), tg, pos+int64(r.Intn(3)))
+				case x < 9:
+					in = append(in, int64(9+r.Intn(3)), tg, 0)
+				default:
+					in = append(in, int64(r.Intn(2)), 1-tg, r.Int63n(top))
+				}
+				edits++
+			}
+			k2 := int64(0)
+			if g+1 < groups || r.Intn(3) == 0 {
+				k2 = int64(1 + r.Intn(6))
+			}
+			in = append(in, walkOp(), tg, k2)
+			pos += int64(r.Intn(8)) // roughly
+		}
+		in = append(in, 3, 0, 0, 6, 0, 0, 4, 0, 0, 3, 1, 0, 6, 1, 0)
+		t.C.Count("op", "live walk")
+		t.Try(fmt.Sprintf("live-walk-kind%d", kind), in, edits >= 2)
+	})
 }
 
 // shrinking must not turn Remove/Contains of a huge value into Add/Grow of it (which would have to allocate the set)
@@ -433,6 +762,9 @@ func c16Shrink(in []int64) [][]int64 {
 
 func c16Describe(in []int64) string {
 	s := []string{"setz.Bits", "setz.Bitmap", "dsz.Bits"}[in[0]%3] + ":"
+	if len(in) > 3 && in[0] < 2 && in[1] == 4 && in[3] == 1 {
+		s += " [live walks: the operations after Range/All(k>0) are issued from inside the k-th call of its callback, the next Range/All on that set continues the same walk]"
+	}
 	for i := 1; i+2 < len(in); i += 3 {
 		s += fmt.Sprintf(" %s[%d](%d)", c16Names[in[i]%13], in[i+1], in[i+2])
 	}
@@ -442,5 +774,5 @@ func c16Describe(in []int64) string {
 func init() {
 	Register(&Prop{ID: "C16", Pure: true, Num: 16, SpecMode: "equal", Gen: c16Gen, Impl: c16Impl,
 		Shrink: c16Shrink, Describe: c16Describe,
-		Rule: "exhaustive: every op sequence up to the tier's length over values {0,1,62,63,64,65,127,128,129} (word boundaries) for setz.Bits, setz.Bitmap, dsz.Bits, followed by Len+Iter; random: 5-60 ops over two sets of different word counts mixing element and bulk ops. distinct = distinct op sequence; non-trivial = at least 2 operations of at least 2 kinds before the final observation"})
+		Rule: "exhaustive: every op sequence up to the tier's length over values {0,1,62,63,64,65,127,128,129} (word boundaries) for setz.Bits, setz.Bitmap, dsz.Bits, followed by Len+Iter; random: 5-60 ops over two sets of different word counts mixing element and bulk ops. distinct = distinct op sequence; non-trivial = at least 2 operations of at least 2 kinds before the final observation. live walks: cases marked by a leading Cap(1) issue the operations that follow Range/All(k>0) from inside the k-th callback call and let the next Range/All on that set continue the same walk (complete small scope + random groups: growth beyond the capacity followed by changes in the word the walk stands in); non-trivial = at least 1 (small scope) / 2 (random) operations issued from inside a callback"})
 }
